@@ -1,6 +1,7 @@
 package c15
 
 import (
+	"encoding/hex"
 	"fmt"
 
 	"verif/harness/vk"
@@ -10,6 +11,14 @@ import (
 func Gen(r *vk.Run, n int) error {
 	g := &gen{r: r, perCls: map[string]int{}}
 	g.genSQL(n)
+	g.genStoreCodecs(n / 16)
+	if err := g.genExport(4 + n/4000); err != nil {
+		return err
+	}
+	if err := g.genEngine(6+n/1500, 10); err != nil {
+		return err
+	}
+	g.genProto(100 + n/40)
 	return nil
 }
 
@@ -18,15 +27,49 @@ func Replay(r *vk.Run, c map[string]any) error {
 	g := &gen{r: r, perCls: map[string]int{}}
 	num := func(k string) int { f, _ := c[k].(float64); return int(f) }
 	str := func(k string) string { s, _ := c[k].(string); return s }
+	flag := func(k string) bool { b, _ := c[k].(bool); return b }
+	val := func(k string) (sval, error) { return parseSval(str(k)) }
 	switch c["kind"] {
 	case "key":
-		v, err := parseSval(str("v"))
+		v, err := val("v")
 		if err != nil {
 			return err
 		}
-		g.caseKey(v, num("ty"), num("maxlen"), "replay")
+		if key := g.caseKey(v, num("ty"), num("maxlen"), "replay"); key != nil {
+			g.caseKeyDec(key, num("ty"), num("maxlen"), "replay", &v)
+		}
+	case "keydec":
+		b, err := hex.DecodeString(str("buf"))
+		if err != nil {
+			return err
+		}
+		g.caseKeyDec(b, num("ty"), num("maxlen"), "replay", nil)
+	case "val":
+		v, err := val("v")
+		if err != nil {
+			return err
+		}
+		if enc := g.caseVal(v, num("ty"), num("maxlen"), flag("nullable"), "replay"); enc != nil {
+			g.caseValDec(enc, num("ty"), flag("nullable"), "replay", &v)
+		}
+	case "valdec":
+		b, err := hex.DecodeString(str("buf"))
+		if err != nil {
+			return err
+		}
+		g.caseValDec(b, num("ty"), flag("nullable"), "replay", nil)
+	case "pair":
+		a, err := val("a")
+		if err != nil {
+			return err
+		}
+		b, err := val("b")
+		if err != nil {
+			return err
+		}
+		g.casePair(a, b, num("ty"), num("maxlen"), "replay")
 	default:
-		return fmt.Errorf("case kind %v is replayed by seed: bin/check C15 --seed <seed of the run>", c["kind"])
+		return fmt.Errorf("a case of kind %v depends on generated state (store / engine): replay it with the seed of the run, bin/check C15 --seed <seed>", c["kind"])
 	}
 	return nil
 }
